@@ -75,6 +75,9 @@ theorem writeBack_fresh (env : C03.Env) (r : RState E) (t : Int) :
     · simp
     · simp [hg h]
 
+/-- GLUE 7 is about stale views only -/
+theorem constStale_fresh (a b c d e : Bool) (v : Nat) : (a && decide (v ≠ v) && b && c && d && e) = false := by simp
+
 theorem objOfS_viewOf (r : RState E) (o : Obj E) (t : Int) : objOfS (viewOf r o t) = o := rfl
 
 /-- on a fresh view the write-back changes the server exactly when the turn changed its view: never a no-op -/
@@ -114,7 +117,7 @@ theorem work_fresh (T : Int) (env : C03.Env) (r : RState E) (ev : Ev E) (hc : r.
     (viewOf r r.srv (if r.clock < ev.at_ then ev.at_ else r.clock)) hheld
   have hwb := writeBack_fresh env r (if r.clock < ev.at_ then ev.at_ else r.clock)
   simp only [work, turn, patchedOf, hq, iter0_ver, hs, hv, harr, init_deadline, List.head?_nil, Option.map_none, hturn, hwb,
-    List.nil_append, List.getLast?_nil, Int.natCast_zero, Int.add_zero, Int.lt_irrefl, if_false, objOfS_viewOf, echo_fresh]
+    List.nil_append, List.getLast?_nil, Int.natCast_zero, Int.add_zero, Int.lt_irrefl, if_false, objOfS_viewOf, constStale_fresh, Bool.false_eq_true, Bool.or_false, echo_fresh]
   refine ⟨trivial, trivial, trivial, trivial, trivial, trivial, trivial, trivial, ?_⟩
   intro hp
   have hrel := pending_not_released env (viewOf r r.srv (if r.clock < ev.at_ then ev.at_ else r.clock)) hp
